@@ -178,6 +178,11 @@ def run_step(W, cfg):
                   all(same(f.offset, b[0]) and same(f.pixelscale, b[1]) and list(f.tilt) == b[2] for f, b in zip(w.data, fb)))
         return
     W.ob_true('allowed only where the table gives a result', want is not None)
+    if form != 'w*=p':
+        for k in wattrs:
+            W.ob_true(f'an accepted product leaves the wavefront\'s {k} unchanged', same(getattr(w, k), wb[k]))
+        for k in pb2:
+            W.ob_true(f'an accepted product leaves the plane\'s {k} unchanged', same(getattr(plane, k), pb2[k]))
     W.ob_true('result ptype = documented', str(out.ptype) == want)
     W.ob_true('returns a Wavefront', isinstance(out, lt.Wavefront))
 
